@@ -96,7 +96,7 @@ def py_rel(rel):
 
 class C13:
     id = "C13"
-    cases = {"quick": 60, "thorough": 2500}
+    cases = {"quick": 40, "thorough": 2500}
     rule = ("generated projects of 1-5 files in nested directories (names with dots and dashes, directories called src/target), "
             "each file defining a class and a function and using those of other files through `from m import X` (acyclic, "
             "independent of path order), a non-.mamba bystander file and an empty directory; 40% with one faulty file (lexical, "
